@@ -133,6 +133,8 @@ def gen_cases(rng, tier, info):
         h.reopen()
         h.obs()
         cases.append(Case("inv-%d" % j, h.cmds))
+    for name, h in G.scenario_histories(rng, raw=True):
+        cases.append(Case("scn-" + name, h.cmds))
     info.update({"histories": n, "invalid_calls": n_calls})
     return cases
 
